@@ -46,6 +46,13 @@ ANCHORS = [
     ("lib/sqlalchemy/orm/strategies.py", "_SubqueryLoader._SubqCollections._load"),
     ("lib/sqlalchemy/orm/strategies.py", "_SubqueryLoader._create_collection_loader"),
     ("lib/sqlalchemy/orm/strategies.py", "_SubqueryLoader._create_scalar_loader"),
+    ("lib/sqlalchemy/orm/strategies.py", "_SubqueryLoader._setup_options"),
+    ("lib/sqlalchemy/orm/strategies.py", "_SubqueryLoader._setup_outermost_orderby"),
+    ("lib/sqlalchemy/orm/strategies.py", "_SubqueryLoader._apply_joins"),
+    ("lib/sqlalchemy/orm/strategies.py", "_SelectInLoader._load_for_path"),
+    ("lib/sqlalchemy/orm/strategies.py", "_LazyLoader._emit_lazyload"),
+    ("lib/sqlalchemy/orm/strategies.py", "_JoinedLoader.setup_query"),
+    ("lib/sqlalchemy/orm/strategies.py", "_JoinedLoader._create_eager_join"),
     ("lib/sqlalchemy/orm/strategies.py", "_JoinedLoader._create_collection_loader"),
     ("lib/sqlalchemy/orm/strategies.py", "_JoinedLoader._create_scalar_loader"),
     ("lib/sqlalchemy/orm/strategies.py", "_ImmediateLoader._load_for_path"),
